@@ -12,5 +12,6 @@ CONSTANTS
   MaxMsgs = 2
   MaxLen = 5
   Dev <- AllDev
+  Store = "dict"
 INVARIANT TypeOK
 CHECK_DEADLOCK FALSE
